@@ -1,0 +1,12 @@
+//go:build verif
+// +build verif
+
+package core
+
+import "com.tuntun.rangers/node/src/middleware/types"
+
+// VerifC09RequestIds runs the request-id bookkeeping CastBlock performs for the block it prepares on top of a
+// header whose RequestIds map is lastOne (chain.latestBlock.RequestIds: the map of the cached, already stored header).
+func VerifC09RequestIds(transactions []*types.Transaction, lastOne map[string]uint64) map[string]uint64 {
+	return getRequestIdFromTransactions(transactions, lastOne)
+}
